@@ -440,6 +440,8 @@ pub struct Kernel {
     pub par_mask: [u64; 8],
     /// calls on fds 0..2 in parent context (C05)
     pub std_touched: Vec<String>,
+    /// lowest number for files opened by the harness (the caller of the library)
+    pub harness_fd_min: i32,
     /// EBADF answered to the parent inside a library call
     pub ebadf: Vec<String>,
     pub kill_log: Vec<KillRec>,
@@ -558,6 +560,7 @@ impl Kernel {
             probes: BTreeMap::new(),
             par_mask: [0; 8],
             std_touched: vec![],
+            harness_fd_min: 3,
             ebadf: vec![],
             kill_log: vec![],
             wait_log: vec![],
@@ -857,7 +860,8 @@ impl Kernel {
     pub fn mk_file(&mut self, pid: i32, label: &str, data: Vec<u8>, cloexec: bool) -> i32 {
         self.files.push(FileObj { data, label: label.to_string() });
         let d = self.new_desc(DescKind::File(self.files.len() - 1), Origin::Harness);
-        self.install(pid, d, cloexec, 3)
+        let min = self.harness_fd_min;
+        self.install(pid, d, cloexec, min)
     }
 
     // ---- read / write ------------------------------------------------------
